@@ -278,11 +278,10 @@ func genSinful(c *core.Ctx) {
 					if !(wi == 0 && qi < 3) && (hi+2*pi+3*wi+5*qi)%29 != 0 {
 						continue
 					}
-					if c.Quick() && !(wi == 0 && qi == 0) && n%2 == 1 {
-						n++
+					n++
+					if c.Quick() && !(wi == 0 && qi == 0) && n%4 != 1 {
 						continue
 					}
-					n++
 					sep := ":"
 					if p == "" && hi%2 == 0 {
 						sep = ""
@@ -299,7 +298,7 @@ func genSinful(c *core.Ctx) {
 		addTextCase(c, "sinful", []byte("<10.0.0.1:9618"+q+">"))
 		addTextCase(c, "sinful", []byte("10.0.0.1:9618"+q))
 	}
-	nMut := 120
+	nMut := 80
 	if !c.Quick() {
 		nMut = 1500
 	}
